@@ -40,7 +40,7 @@ RULE = ("a case = (phase, cause, destination kind, default source, data shape); 
 ASSUMPTIONS = ["'running' = the simulation task has started and no error/stop was requested yet "
                "(docs/simulation.rst: is_ready)"]
 
-PHASES = ['built', 'task-created', 'sync-init', 'async-init', 'running', 'abort-called',
+PHASES = ['built', 'finalized', 'task-created', 'sync-init', 'async-init', 'running', 'abort-called',
           'stopping-sync', 'stopping-async', 'finished', 'start-failed', 'reset']
 CAUSES = ['shutdown', 'abort-exc', 'handler-error', 'cancel-task', 'ctrl-shutdown', 'ctrl-abort',
           'calc-error', 'task-error']
@@ -283,6 +283,9 @@ def run_phase(cfg, acc):
         async def driver():
             if phase == 'built':
                 fire_all('circuit built, not started')
+            if phase == 'finalized':
+                circuit.finalize()
+                fire_all('circuit finalized explicitly, not started')
             task = asyncio.create_task(circuit.run_forever())
             if phase == 'task-created':
                 fire_all('task created, not yet running')
